@@ -527,7 +527,11 @@ def main(tier: str) -> int:
         run.violation("translated-model-not-buildable", f"the model could not be regenerated from the source: {type(exc).__name__}: {exc}",
                       {"unchecked": "coq/Dist/GenAgree.v"}, found_input=False)
         return run.finish()
-    proofs_ok = L.check_proofs(run, tree, TARGETS, extra_tb=[
+    # the re-check of Props/C15.v (Print Assumptions over the Coquelicot closure: ~25 s of one core) runs next to the
+    # implementation runs and the correspondence; both need the static targets built (per-file locks in tools/build.py)
+    from concurrent.futures import ThreadPoolExecutor
+    proof_thread = ThreadPoolExecutor(max_workers=1)
+    proof_future = proof_thread.submit(L.check_proofs, run, tree, TARGETS, extra_tb=[
         "libm (log, exp, pow, erf, gamma, lgamma) and the ** operator are oracle tables recorded from CPython in the same run",
         "theorems are over the real-number instance (Dist.NumR; stdlib reals + Coquelicot, the standard real-number axioms) of "
         "the same Gallina text (Dist.Draw, Dist.Density) that is executed with PrimFloat in the correspondence",
@@ -537,6 +541,14 @@ def main(tier: str) -> int:
         "densities and of binomial / negative binomial / Poisson probabilities, cdf / inverse-cdf accuracy: transcription tie only",
         "numerical oracle (quadrature, sums, round trips, seeded sample statistics) is used only to find failing inputs",
     ])
+    C.build_coq(TARGETS)
+
+    def proofs_done():
+        try:
+            return proof_future.result()
+        except Exception as exc:  # noqa
+            run.proof_log = f"{type(exc).__name__}: {exc}"
+            return False
     rng = random.Random(run.seed * 7919 + 15)
     thorough = tier != "quick"
     dcases = gen_dens_cases(rng, 152 if not thorough else 1900)
@@ -548,6 +560,7 @@ def main(tier: str) -> int:
         num_cases = [c for c in dcases if c.get("grid")] + [c for c in dcases if not c.get("grid")][:(30 if not thorough else 400)]
         nres = run_parallel(IMPL15, "num", [{"cls": c["cls"], "params": c["params"], "far": far_of(c)} for c in num_cases])
     except Exception as exc:  # noqa
+        proofs_done()
         run.violation("harness-cannot-run-implementation",
                       f"running the calls on the implementation failed: {type(exc).__name__}: {str(exc)[-1500:]}", {}, found_input=False)
         return run.finish()
@@ -582,6 +595,7 @@ def main(tier: str) -> int:
     # ---- tie (a): densities
     corr = dens_correspondence(run, dcases, dres)
     if corr is None:
+        proofs_done()
         return run.finish()
     mism, unresolved, rounds = corr
     # ---- tie (b): draws
@@ -590,6 +604,7 @@ def main(tier: str) -> int:
     c14.PID = "C15d"
     dcorr = c14.correspondence(run, draw_cases, dr, max_rounds=12)
     c14.PID = "C14"
+    proofs_ok = proofs_done()
     if dcorr is None:
         return run.finish()
     dmism, dunres, drounds = dcorr
